@@ -29,7 +29,7 @@ fn kid(k: &[u8]) -> u32 {
 fn wb_run(report: &mut Report, seed: u64, rid: u64, dir: &str) {
     let mut rng = Rng::derive(seed, rid, 0x3b);
     let cpus = [2usize, 4, 6, 8, 10, 12, 14, 16][(rid % 8) as usize];
-    let pattern = (rid / 8) % 5; // 0 small burst, 1 buffer-filling burst, 2 overwrite/delete of durable keys, 3 busy neighbour, 4 swept TTL keys
+    let pattern = (rid / 8) % 6; // 0 small burst, 1 buffer-filling burst, 2 overwrite/delete of durable keys, 3 busy neighbour, 4 swept TTL keys, 5 retirements deferred by readers
     let mut cfg = Cfg::disk(16 + 16384);
     cfg.cpus = cpus;
     cfg.cache = rng.chance(1, 2);
@@ -165,6 +165,76 @@ fn wb_run(report: &mut Report, seed: u64, rid: u64, dir: &str) {
         report.count("runs", 1);
         report.count(&format!("runs_shards_{shards}"), 1);
         report.count("runs_pattern_4", 1);
+        hub().unwatch(&mon);
+        drop(store);
+        let _ = std::fs::remove_file(&path);
+        return;
+    }
+    if pattern == 5 {
+        // durable keys are overwritten while readers sit inside reads of the old generations (delayed
+        // 300 ms after taking their pin): the flusher has to defer those retirements. Afterwards nobody
+        // writes any more, so only the periodic coordinator can get the deferred retirements done.
+        for i in 0..nkeys {
+            put(&store, &mut model, format!("wb-{i:05}").into_bytes(), 100);
+        }
+        if let Err((sig, msg)) = wait_drained(&store, "initial fill") {
+            if sig == "wb:slow" {
+                report.inconclusive.push(msg);
+            } else {
+                report.violation(sig, msg, replay.clone());
+            }
+            return;
+        }
+        // the values are on the device only now (cache is cold for these keys)
+        hub().set_sched(Some(Arc::new(SchedCtl::new(seed ^ rid, 0, 0).target("read.pinned.unlocked", 1000, 300_000))));
+        let mut readers = Vec::new();
+        for r in 0..4usize {
+            let s = store.clone();
+            readers.push(std::thread::spawn(move || {
+                for i in 0..3 {
+                    let k = format!("wb-{:05}", r * 3 + i).into_bytes();
+                    let _ = s.get(&k);
+                }
+            }));
+        }
+        std::thread::sleep(Duration::from_millis(60));
+        for i in 0..12.min(nkeys) {
+            put(&store, &mut model, format!("wb-{i:05}").into_bytes(), 140);
+        }
+        let mut deferred = 0usize;
+        while readers.iter().any(|r| !r.is_finished()) {
+            if let Some(p) = store.verif_pending() {
+                if p.shard_queued.iter().all(|q| *q == 0) {
+                    deferred = deferred.max(p.retirements);
+                }
+            }
+            std::thread::sleep(Duration::from_millis(5));
+        }
+        for r in readers {
+            let _ = r.join();
+        }
+        hub().set_sched(None);
+        report.count("retirements_deferred_by_readers", deferred as u64);
+        match wait_drained(&store, "retirements deferred by readers") {
+            Err((sig, msg)) if sig == "wb:slow" => report.inconclusive.push(msg),
+            Err((sig, msg)) => report.violation(sig, msg, replay.clone()),
+            Ok(secs) => {
+                report.max("max_deferred_retirement_ms", (secs * 1000.0) as u64);
+                let events = mon.events();
+                let durable = crashimg::build(&base, &events, &Recipe { cut: events.len(), keep: vec![], tear: None });
+                match indep::scan(&durable, None, false) {
+                    Ok(sc) if sc.heads.len() == sc.records.len() => {
+                        report.nontrivial.insert(fnv_mix(fnv_mix(shards as u64, pattern), deferred as u64));
+                    }
+                    Ok(sc) => report.violation("wb:superseded-not-retired", format!("{} superseded generations are still valid records on the device after pending work drained without flush", sc.heads.len() - sc.records.len()), replay.clone()),
+                    Err(e) => report.violation("wb:decode", format!("independent decode failed: {e}"), replay.clone()),
+                }
+            }
+        }
+        report.evaluations += 1;
+        report.count("runs", 1);
+        report.count(&format!("runs_shards_{shards}"), 1);
+        report.count("runs_pattern_5", 1);
         hub().unwatch(&mon);
         drop(store);
         let _ = std::fs::remove_file(&path);
@@ -314,7 +384,7 @@ fn wb_run(report: &mut Report, seed: u64, rid: u64, dir: &str) {
     if let Err((sig, msg)) = layout::check_partition(&snap, 3, &[]) {
         report.violation(format!("wb:{sig}"), msg, replay.clone());
     }
-    let pattern_name = ["small burst", "buffer-filling burst", "overwrite/delete of durable keys", "busy neighbour", "swept ttl keys"][pattern as usize];
+    let pattern_name = ["small burst", "buffer-filling burst", "overwrite/delete of durable keys", "busy neighbour", "swept ttl keys", "deferred retirements"][pattern as usize];
     if report.samples.len() < 2 {
         report.sample(json!({"run": rid, "cpus": cpus, "shards": shards, "pattern": pattern_name, "keys": nkeys, "shard_occupancy_at_last_return": occupancy, "target_durable_s": target_latency, "trace_events": events.len()}));
     }
